@@ -337,6 +337,7 @@ func c04Run(c C04Case, stats map[string]int) (vs []*ev.Violation, signedStrings 
 	resp := obs.ReadResponse(obs.FindResponse(d.Root()))
 	if resp == nil || !resp.Success() {
 		stats["non-success-reply"]++
+		add(c04StraySignature("non-Success reply", d, mdCert))
 		return
 	}
 	if len(resp.Assertions) != 1 {
@@ -375,6 +376,13 @@ func c04Run(c C04Case, stats map[string]int) (vs []*ev.Violation, signedStrings 
 				add(ev.V("C04/redirect-url-malformed-query", "consumer URL %q, parameters appended with %q: %s", acsURL, string(sep), short(loc, 120)))
 			}
 		}
+		// the next reply of the same provider through the same binding is a failure (a request whose login is not completed):
+		// whatever signature parameters it carries must be its own
+		w.Store.PutRequest(world.RequestSpec{ID: "c04-pending", AppID: c.Spec.SPs[0].AppID, RelayState: "rs-pending", ACS: resp.Destination, Binding: world.BindRedirect, AuthRequestID: "_c04pending"})
+		rep2 := obs.Do(w.Handler, obs.HTTPReq{Method: "GET", Path: c.Spec.IdP.Route("callback"), RawQuery: "id=c04-pending", Host: c.Host})
+		if rep2.Panic == "" {
+			add(c04StraySignature("failure reply after a Success reply", obs.Decode(rep2), mdCert))
+		}
 		return
 	}
 	// enveloped signature on the assertion
@@ -385,6 +393,22 @@ func c04Run(c C04Case, stats map[string]int) (vs []*ev.Violation, signedStrings 
 		}
 	}
 	return
+}
+
+// c04StraySignature: a reply that is not a Success response need not be signed, but a query-string signature it does carry is
+// an emitted signature like any other and has to verify over the URL it is part of.
+func c04StraySignature(what string, d *obs.Decoded, mdCert string) *ev.Violation {
+	if d.Kind != obs.KindRedirectSAML || !strings.Contains("&"+d.RawQuery, "&Signature=") {
+		return nil
+	}
+	pub, err := dsigref.CertPublicKey(mdCert)
+	if err != nil {
+		return nil
+	}
+	if res := dsigref.VerifyRedirect(d.RawQuery, "SAMLResponse", pub); !res.OK {
+		return ev.V("C04/stray-signature-does-not-verify", "%s carries Signature / SigAlg parameters that do not verify: %s", what, res.Reason)
+	}
+	return nil
 }
 
 func posOf(path string) string {
